@@ -38,6 +38,53 @@ type soWrite struct {
 }
 
 // soTaint computes the tainted objects of a function: start ∪ locals that may alias them.
+// soHolders: locals that were assigned an alias of shared memory INTO A FIELD (`af.Args = tv[1:]`): a method
+// that writes through its receiver, called on such a local, writes shared memory.
+func soHolders(body *ast.BlockStmt, t map[*ast.Object]bool) map[*ast.Object]string {
+	h := map[*ast.Object]string{}
+	var aliases func(x ast.Expr) bool
+	aliases = func(x ast.Expr) bool {
+		switch e := x.(type) {
+		case *ast.Ident:
+			return e.Obj != nil && t[e.Obj]
+		case *ast.ParenExpr:
+			return aliases(e.X)
+		case *ast.SelectorExpr:
+			return aliases(e.X)
+		case *ast.IndexExpr:
+			return aliases(e.X)
+		case *ast.SliceExpr:
+			return aliases(e.X)
+		case *ast.StarExpr:
+			return aliases(e.X)
+		case *ast.TypeAssertExpr:
+			return aliases(e.X)
+		}
+		return false
+	}
+	ast.Inspect(body, func(n ast.Node) bool {
+		as, ok := n.(*ast.AssignStmt)
+		if !ok || len(as.Lhs) != len(as.Rhs) {
+			return true
+		}
+		for i, l := range as.Lhs {
+			sel, ok := l.(*ast.SelectorExpr)
+			if !ok {
+				continue
+			}
+			id, ok := sel.X.(*ast.Ident)
+			if !ok || id.Obj == nil || t[id.Obj] {
+				continue
+			}
+			if aliases(as.Rhs[i]) {
+				h[id.Obj] = sel.Sel.Name
+			}
+		}
+		return true
+	})
+	return h
+}
+
 func soTaint(body *ast.BlockStmt, start map[*ast.Object]bool) map[*ast.Object]bool {
 	t := map[*ast.Object]bool{}
 	for o := range start {
@@ -536,6 +583,34 @@ func extractSharedObj(repo, out string) ([]string, error) {
 	}
 	b.WriteString("]\n\n")
 
+	// ---- root package: a shared *ojg.Converter ---------------------------------------------------------
+	fset, files, err = roLoad(repo, ".")
+	if err != nil {
+		return nil, err
+	}
+	funcs = roFuncs(files)
+	isEntry = func(f *roFunc) bool { return f.recvType == "Converter" && ast.IsExported(f.decl.Name.Name) }
+	reach = soReach(funcs, isEntry, func(*roFunc) bool { return false })
+	var cvW []soWrite
+	nCv := 0
+	for _, f := range funcs {
+		if !reach[f] {
+			continue
+		}
+		nCv++
+		if f.recvType != "Converter" || f.recvName == "" || f.recvName == "_" {
+			continue
+		}
+		recv := f.decl.Recv.List[0].Names[0].Obj
+		t := soTaint(f.decl.Body, map[*ast.Object]bool{recv: true})
+		cvW = append(cvW, soWrites(fset, "ojg."+f.key, f.decl.Body, t, recv, !f.recvPtr)...)
+	}
+	if nCv < 2 {
+		return nil, fmt.Errorf("sharedobj: only %d functions reached from the exported methods of ojg.Converter", nCv)
+	}
+	fmt.Fprintf(&b, "/-- functions of the root package reached from the exported methods of Converter -/\ndef converterReached : Nat := %d\n\n", nCv)
+	fmt.Fprintf(&b, "/-- writes through the *Converter receiver or a local that may alias it (the caller's DATA is converted in place: not the receiver) -/\ndef converterSharedWrites : List (String × String × List String) :=\n  %s\n\n", soLeanList(cvW))
+
 	// ---- package asm: a compiled plan ------------------------------------------------------------------
 	fset, files, err = roLoad(repo, "asm")
 	if err != nil {
@@ -577,6 +652,85 @@ func extractSharedObj(repo, out string) ([]string, error) {
 			compileCallers = append(compileCallers, f.key)
 		}
 	}
+	// the evaluation functions: everything assigned to an `Eval:` field, what they reach, and Plan.Execute;
+	// shared memory enters them as the plan's arguments (args ...any, arg / value any: the caller's data are
+	// root and at). A write through such a parameter (or an alias), and a call of a receiver-writing method
+	// on a local that was given an alias of one as a field, are writes into the plan being executed.
+	evalNames := map[string]bool{}
+	for _, fl := range files {
+		ast.Inspect(fl, func(n ast.Node) bool {
+			kv, ok := n.(*ast.KeyValueExpr)
+			if !ok {
+				return true
+			}
+			if k, ok := kv.Key.(*ast.Ident); ok && k.Name == "Eval" {
+				if v, ok := kv.Value.(*ast.Ident); ok {
+					evalNames[v.Name] = true
+				}
+			}
+			return true
+		})
+	}
+	if len(evalNames) < 20 {
+		return nil, fmt.Errorf("sharedobj: only %d asm functions are assigned to an Eval field", len(evalNames))
+	}
+	construction := map[string]bool{"NewPlan": true, "Define": true, "NewFn": true, "init": true}
+	evReach := soReach(funcs, func(f *roFunc) bool {
+		return (f.recvType == "" && evalNames[f.decl.Name.Name]) || f.key == "Plan.Execute"
+	},
+		func(f *roFunc) bool { return construction[f.decl.Name.Name] || f.key == "Fn.compile" })
+	// methods that write through their receiver
+	recvWriter := map[string]bool{}
+	for _, f := range funcs {
+		if f.recvName == "" || f.recvName == "_" {
+			continue
+		}
+		recv := f.decl.Recv.List[0].Names[0].Obj
+		if len(soWrites(fset, f.key, f.decl.Body, map[*ast.Object]bool{recv: true}, recv, !f.recvPtr)) > 0 {
+			recvWriter[f.decl.Name.Name] = true
+		}
+	}
+	var asmW []soWrite
+	nEval := 0
+	for _, f := range funcs {
+		if !evReach[f] {
+			continue
+		}
+		nEval++
+		start := map[*ast.Object]bool{}
+		for _, fld := range f.decl.Type.Params.List {
+			for _, n := range fld.Names {
+				if n.Obj != nil && (n.Name == "args" || n.Name == "arg" || n.Name == "value") {
+					start[n.Obj] = true
+				}
+			}
+		}
+		if len(start) == 0 {
+			continue
+		}
+		t := soTaint(f.decl.Body, start)
+		asmW = append(asmW, soWrites(fset, "asm."+f.key, f.decl.Body, t, nil, false)...)
+		holders := soHolders(f.decl.Body, t)
+		ast.Inspect(f.decl.Body, func(n ast.Node) bool {
+			ce, ok := n.(*ast.CallExpr)
+			if !ok {
+				return true
+			}
+			sel, ok := ce.Fun.(*ast.SelectorExpr)
+			if !ok || !recvWriter[sel.Sel.Name] {
+				return true
+			}
+			if id, ok := sel.X.(*ast.Ident); ok && id.Obj != nil {
+				if fld, has := holders[id.Obj]; has {
+					asmW = append(asmW, soWrite{fn: "asm." + f.key, lhs: id.Name + "." + sel.Sel.Name + "() with " + id.Name + "." + fld + " an alias of the plan's list"})
+				}
+			}
+			return true
+		})
+	}
+	sort.SliceStable(asmW, func(i, j int) bool { return asmW[i].fn+asmW[i].lhs < asmW[j].fn+asmW[j].lhs })
+	fmt.Fprintf(&b, "/-- asm functions reached from the Eval functions and (*Plan).Execute (construction and compile apart) -/\ndef asmEvalReached : Nat := %d\n\n", nEval)
+	fmt.Fprintf(&b, "/-- writes into the plan during evaluation: through the argument parameters (args, arg, value) or an alias, and calls of a\nreceiver-writing method on a local that holds an alias of them in a field -/\ndef asmSharedWrites : List (String × String × List String) :=\n  %s\n\n", soLeanList(asmW))
 	if !sawExecute || len(compileCallers) == 0 {
 		return nil, fmt.Errorf("sharedobj: asm.(*Plan).Execute / compile() not found")
 	}
